@@ -1139,7 +1139,11 @@ def main():
     p = subprocess.run([sys.executable, os.path.join(os.path.dirname(os.path.abspath(__file__)), 'allocsites.py'), repo, alloc_rs],
                        stdout=subprocess.PIPE, stderr=subprocess.STDOUT, text=True)
     print(p.stdout.strip())
-    if p.returncode != 0:
+    if p.returncode == 3:
+        # a shape check failed; every function was cut: translate the unit, report the broken tie
+        rc = 2
+        units.append(('AllocSites', alloc_rs, None, ()))
+    elif p.returncode != 0:
         rc = 2
         write_if_changed(os.path.join(outdir, 'AllocSites.v'), '(* allocsites.py failed: %s *)\nFrom BS Require Import Word.\nDefinition allocsites_translation_failed : True := I.\n' % p.stdout.strip().replace('*)', '* )'))
     else:
